@@ -543,8 +543,13 @@ class JsModule:
         """Source text of the top-level constants and the named functions (for replay under node)."""
         parts = []
         seen = set()
+        pure = ('Literal', 'TemplateLiteral', 'ArrayExpression', 'ObjectExpression', 'NewExpression', 'UnaryExpression',
+                'ArrowFunctionExpression', 'FunctionExpression')
         for n in self.nodes:
-            if n['type'] == 'VariableDeclaration' and any(d['id'].get('name') in self.consts for d in n['declarations']):
+            # every top-level declaration whose initialiser has no side effect (whether or not the translator can encode
+            # it): the functions may refer to it
+            if n['type'] == 'VariableDeclaration' and (any(d['id'].get('name') in self.consts for d in n['declarations'])
+                                                       or all(d['id']['type'] == 'Identifier' and (d.get('init') is None or d['init']['type'] in pure) for d in n['declarations'])):
                 if n['start'] not in seen:
                     seen.add(n['start'])
                     parts.append(self.src[n['start']:n['end']])
